@@ -665,6 +665,18 @@ class Executor:
             outs.append((self._dictcomp(e, g, src, s), s))
         return outs
 
+    def _filter_cond(self, c, sub):
+        """truth value of a comprehension filter.  `if v` on a value that stands for an object (an uninterpreted id) is the object's
+        Python truth value -- unknown here (an empty connection is falsy), so an uninterpreted predicate: nothing may depend on it"""
+        v = self._pure(c, sub)
+        if isinstance(v, bool):
+            return z3.BoolVal(v)
+        if z3.is_expr(v) and z3.is_bool(v):
+            return v
+        if z3.is_expr(v) and not (z3.is_int(v) or z3.is_real(v)) or (z3.is_expr(v) and isinstance(c, ast.Name)):
+            return z3.Function(f"python_truth_{v.sort()}", v.sort(), z3.BoolSort())(v)
+        return self.truthy(v, sub)
+
     def _dictcomp(self, e, g, src, st: State):
         # {k: f(k,v) for k, v in d.items() if c(k,v)}  and  {i: f(i) for i in range(a,b)}
         if isinstance(src, tuple) and src[0] == "items":
@@ -679,7 +691,7 @@ class Executor:
             sub.frames.append({"__closure__": st.loc, kname: k, vname: self._wrapv(d, d.get(k))})
             cond = z3.BoolVal(True)
             for c in g.ifs:
-                cond = z3.And(cond, self._pure(c, sub))
+                cond = z3.And(cond, self._filter_cond(c, sub))
             val = self.lift(self._pure(e.value, sub))
             if not (isinstance(e.key, ast.Name) and e.key.id == kname):
                 # re-keyed entries: supported when the new key is an invertible affine function of an Int key (c - k, k + c, int(k))
@@ -710,7 +722,7 @@ class Executor:
             sub.frames.append({"__closure__": st.loc, kname: k})
             cond = z3.BoolVal(True)
             for c in g.ifs:
-                cond = z3.And(cond, self._pure(c, sub))
+                cond = z3.And(cond, self._filter_cond(c, sub))
             if not (isinstance(e.key, ast.Name) and e.key.id == kname):
                 raise Unsupported("dictcomp with re-keyed entries")
             val = self.lift(self._pure(e.value, sub))
@@ -739,7 +751,7 @@ class Executor:
             sub.frames.append({"__closure__": st.loc, iname: i})
             cond = z3.And(lo <= i, i < hi)
             for c in g.ifs:
-                cond = z3.And(cond, self._pure(c, sub))
+                cond = z3.And(cond, self._filter_cond(c, sub))
             if not (isinstance(e.key, ast.Name) and e.key.id == iname):
                 raise Unsupported("dictcomp with re-keyed entries")
             val = self.lift(self._pure(e.value, sub))
